@@ -40,7 +40,10 @@ OUTS = ['ok', 'none', 'closed', 'unwritable', 'errnone']
 OUTCODE = {'ok': 0, 'errnone': 0, 'none': 1, 'closed': 2, 'unwritable': 2}
 F_EXPL = 'C06-explicit-show-needs-stdout'
 
-HEADER = '''import sys
+STALE = 'stale results of an earlier run\n'
+
+HEADER = '''import sys, contextlib, threading
+_LOCK = threading.Lock()
 K = int(sys.argv[1]); KIND = sys.argv[2]; DECO = sys.argv[3]; OUT = sys.argv[4]
 SHOWAT = int(sys.argv[5]) if len(sys.argv) > 5 else 0     # explicit mode: an intermediate profile.show() at that statement
 WAITAT = int(sys.argv[6]) if len(sys.argv) > 6 else 0     # kernprof -i: wait at that statement until the timer has dumped
@@ -95,7 +98,7 @@ def tick(v=0):
 
 # ---------------------------------------------------------------------------------
 # programs
-def gen_block(rnd, i, nfun, ind, budget, depth, fin):
+def gen_block(rnd, i, nfun, ind, budget, depth, fin, withs=False):
     out = []
     pad = '    ' * ind
     n = rnd.randrange(1, budget + 1)
@@ -107,24 +110,30 @@ def gen_block(rnd, i, nfun, ind, budget, depth, fin):
             choices += ['call']
         if fin and depth < 2:
             choices += ['finally', 'finally']
+        if withs and depth < 3:
+            choices += ['with', 'with', 'with']
         c = rnd.choice(choices)
         if c == 'assign':
             out.append(pad + 'x = tick(x + %d)' % rnd.randrange(1, 5))
         elif c == 'if':
             out.append(pad + 'if tick(x) %% %d:' % rnd.randrange(2, 4))
-            out += gen_block(rnd, i, nfun, ind + 1, 2, depth + 1, fin)
+            out += gen_block(rnd, i, nfun, ind + 1, 2, depth + 1, fin, withs)
             if rnd.random() < 0.6:
                 out.append(pad + 'else:')
-                out += gen_block(rnd, i, nfun, ind + 1, 2, depth + 1, fin)
+                out += gen_block(rnd, i, nfun, ind + 1, 2, depth + 1, fin, withs)
         elif c == 'for':
             out.append(pad + 'for i%d in range(tick(%d)):' % (depth, rnd.randrange(1, 3)))
-            out += gen_block(rnd, i, nfun, ind + 1, 2, depth + 1, fin)
+            out += gen_block(rnd, i, nfun, ind + 1, 2, depth + 1, fin, withs)
         elif c == 'while':
             out.append(pad + 'w%d = tick(0)' % depth)
             out.append(pad + 'while tick(w%d) < %d:' % (depth, rnd.randrange(1, 3)))
             out.append(pad + '    w%d = tick(w%d + 1)' % (depth, depth))
         elif c == 'call':
             out.append(pad + 'x = tick(f%d(x %% 3))' % rnd.randrange(i + 1, nfun))
+        elif c == 'with':
+            # context managers from the standard library (their __exit__ is not a function of the program)
+            out.append(pad + rnd.choice(['with contextlib.nullcontext():', 'with _LOCK:', 'with contextlib.nullcontext() as _cm, contextlib.ExitStack():']))
+            out += gen_block(rnd, i, nfun, ind + 1, 2, depth + 1, fin, withs)
         elif c == 'finally':
             out.append(pad + 'try:')
             out += gen_block(rnd, i, nfun, ind + 1, 2, depth + 1, False)
@@ -155,22 +164,25 @@ def gen_program_g(rnd):
     else:
         lines += ['    finally:', '        try:', '            x = tick(x + 1)', '        finally:', '            x = tick(f2(x % 3))']
     lines += ['', '', '@deco', 'def f2(x):', '    x = tick(x + %d)' % rnd.randrange(1, 4), '    return tick(x)']
-    lines += ['', '', 'f0(%d)' % n, "print('END', _n)", 'exec(LEAVE, globals())']
+    lines += ['', ''] + ['_pre = tick(%d)' % j for j in range(NPRE)] + ['f0(%d)' % n, "print('END', _n)", 'exec(LEAVE, globals())']
     return '\n'.join(lines) + '\n'
 
 
-def gen_program(rnd, nfun, budget, fin):
+NPRE = 2     # statements at module level before the first profiled call
+
+
+def gen_program(rnd, nfun, budget, fin, withs=False):
     lines = HEADER.splitlines()
     for i in range(nfun):
         lines += ['', '', '@deco', 'def f%d(x):' % i]
-        body = gen_block(rnd, i, nfun, 1, budget, 0, fin)
+        body = gen_block(rnd, i, nfun, 1, budget, 0, fin, withs)
         if i < nfun - 1 and not any('f%d(' % (i + 1) in b for b in body):
             # every function is reached: a call of the next one at a top-level position
             tops = [j for j, b in enumerate(body) if b.startswith('    ') and not b.startswith('     ')]
             body.insert(rnd.choice(tops + [len(body)]), '    x = tick(f%d(x %% 3))' % (i + 1))
         lines += body
         lines.append('    return tick(x)')
-    lines += ['', '', 'f0(%d)' % rnd.randrange(1, 4), "print('END', _n)", 'exec(LEAVE, globals())']
+    lines += ['', ''] + ['_pre = tick(%d)' % j for j in range(NPRE)] + ['f0(%d)' % rnd.randrange(1, 4), "print('END', _n)", 'exec(LEAVE, globals())']
     return '\n'.join(lines) + '\n'
 
 
@@ -247,6 +259,8 @@ def run_case(impl, base, idx, c, progs):
     with open(os.path.join(d, prog['file']), 'w') as fh:
         fh.write(prog['text'])
     cmd, outfile, extra = mode_cmd(c['mode'], prog, c['k'], c['kind'], c.get('out', 'ok'), c.get('showat', 0), c.get('waitat', 0))
+    with open(os.path.join(d, outfile), 'w') as fh:       # what an earlier run left behind under the same name
+        fh.write(STALE)
     env = core.impl_env(impl, **extra)
     r = sub(cmd, d, env)
     ref = None
@@ -264,7 +278,18 @@ def regset(mode, prog):
 
 def expected_counts(mode, prog, ex):
     reg = set(regset(mode, prog))
-    if mode in ('b', 'plain', 'pm'):
+    if mode == 'b':
+        # cProfile is on only inside the decorated functions' windows
+        cnt, depth = collections.Counter(), 0
+        for e in ex:
+            if e[0] == 'c' and e[1] in prog['deco']:
+                depth += 1
+            if depth > 0 and e[0] == 'c':
+                cnt[e[1]] += 1
+            if e[0] == 'r' and e[1] in prog['deco']:
+                depth -= 1
+        return dict(cnt)
+    if mode in ('plain', 'pm'):
         cnt = collections.Counter(e[1] for e in ex if e[0] == 'c' and e[1] in reg)
         return {k: v for k, v in cnt.items()}
     cnt = collections.Counter((e[1], e[2]) for e in ex if e[0] == 'l' and e[1] in reg)
@@ -302,12 +327,19 @@ def analyse(res_case, loaded, prog, ex, ended):
     want_line = 'Wrote profile results to ' + res_case['outname']
     out = c.get('out', 'ok')
     visible = out in ('ok', 'errnone')        # can kernprof's closing lines be seen on the captured stdout?
-    dumps = sum(1 for l in wrote if l == want_line) if visible else int(loaded['exists'])
+    dumps = sum(1 for l in wrote if l == want_line) if visible else int(loaded['exists'] and not loaded.get('stale'))
     if c.get('showat'):
         dumps -= 1          # the program's own intermediate show(); what is left is the exit hook's
     if visible and dumps != 1:
         fails.append('expected exactly one %r line, stdout has %r' % (want_line, wrote))
-    if not loaded['exists']:
+    if loaded['exists'] and loaded.get('stale'):
+        fid = None
+        if (mode == 'explicit' and out in ('none', 'closed', 'unwritable')
+                and 'show_text' in r['err'] and 'GlobalProfiler.show' in r['err']):
+            fid = F_EXPL
+        fails.append(('the statistics file %s was not written by this run: it still holds the content that was there before'
+                      % res_case['outname'], fid))
+    elif not loaded['exists']:
         fid = None
         if (mode == 'explicit' and out in ('none', 'closed', 'unwritable')
                 and not any(x.startswith('profile_output') for x in res_case['listing'])
@@ -380,19 +412,22 @@ HEADER_V = ('From LP Require Import Prelude.Py Cli.DeliverModel.\n'
 
 # ---------------------------------------------------------------------------------
 def make_programs(rnd, tier, base):
-    specs = [(2, 2, False), (2, 3, False)] if tier == 'quick' else \
-        [(2, 2, False), (2, 3, False), (3, 3, False), (3, 3, True), (2, 4, True), (3, 2, False),
-         (4, 2, False), (3, 3, True), (2, 4, False), (4, 2, True)]
+    # (functions, statements per block, try/finally blocks, with blocks)
+    specs = [(2, 2, False, False), (2, 3, False, True)] if tier == 'quick' else \
+        [(2, 2, False, False), (2, 3, False, True), (3, 3, False, False), (3, 3, True, False), (2, 4, True, True),
+         (3, 2, False, True), (4, 2, False, False), (3, 3, True, True), (2, 4, False, False), (4, 2, True, False)]
     limit = 30 if tier == 'quick' else 60
     progs = []
-    for pi, (nfun, budget, fin) in enumerate(specs):
+    for pi, (nfun, budget, fin, withs) in enumerate(specs):
         for attempt in range(200):
-            text = gen_program(rnd, nfun, budget, fin)
-            prog = dict(name='p%d' % pi, file='progc06_%d.py' % pi, text=text, nfun=nfun, fin=fin, deco=list(range(nfun)), gen=False)
+            text = gen_program(rnd, nfun, budget, fin, withs)
+            # an exception that leaves a with block executes the with line again (__exit__) during the unwinding
+            prog = dict(name='p%d' % pi, file='progc06_%d.py' % pi, text=text, nfun=nfun, fin=fin or withs, deco=list(range(nfun)),
+                        gen=False, withs=withs)
             o = oracle(base, prog, 0, 'none')
             full = conv(o['events'])
             n = sum(1 for e in full if e == ('c', TICK))
-            if 14 <= n <= limit and o['ended'] == 'return' and (not fin or 'finally' in text):
+            if 14 <= n <= limit and o['ended'] == 'return' and (not fin or 'finally' in text) and (not withs or text.count('    with ') >= 2):
                 prog.update(N=n, full=full)
                 progs.append(prog)
                 break
@@ -400,7 +435,7 @@ def make_programs(rnd, tier, base):
             raise RuntimeError('no program of the requested size found')
     for gi in range(1 if tier == 'quick' else 3):
         pi = len(progs)
-        prog = dict(name='g%d' % gi, file='progc06_%d.py' % pi, text=gen_program_g(rnd), nfun=3, fin=True, deco=[1, 2], gen=True)
+        prog = dict(name='g%d' % gi, file='progc06_%d.py' % pi, text=gen_program_g(rnd), nfun=3, fin=True, deco=[1, 2], gen=True, withs=False)
         o = oracle(base, prog, 0, 'none')
         full = conv(o['events'])
         prog.update(N=sum(1 for e in full if e == ('c', TICK)), full=full)
@@ -430,6 +465,10 @@ def make_cases(rnd, tier, progs):
                 cases.append(dict(p=pi, k=0, kind='none', mode=mode))
                 for kind in KINDS[1:]:
                     cases.append(dict(p=pi, k=rnd.choice(ks), kind=kind, mode=mode))
+        # the program ends before its first profiled call (a stale file of an earlier run is always present)
+        for mode in pmodes:
+            for kind in (KINDS[1:] if (mode == 'b' or tier == 'thorough') else [rnd.choice(KINDS[1:])]):
+                cases.append(dict(p=pi, k=rnd.randrange(1, NPRE + 1), kind=kind, mode=mode))
         # explicit mode with an intermediate profile.show() requested by the program itself
         for kind in KINDS:
             k = 0 if kind == 'none' else rnd.choice([x for x in ks if x >= 4])
@@ -439,7 +478,7 @@ def make_cases(rnd, tier, progs):
         if not prog['gen']:
             for kind in KINDS:
                 for _ in range(1 if tier == 'quick' else 3):
-                    waitat = rnd.randrange(2, prog['N'] - 3)
+                    waitat = rnd.randrange(NPRE + 1, prog['N'] - 3)
                     k = 0 if kind == 'none' else rnd.randrange(waitat + 1, prog['N'] + 1)
                     cases.append(dict(p=pi, k=k, kind=kind, mode='li', waitat=waitat))
         # the program ends with its standard streams closed / replaced
@@ -467,7 +506,7 @@ def evaluate(impl, base, cases, progs, tag):
         rs = list(ex.map(lambda ic: run_case(impl, sub_base, ic[0], ic[1], progs), enumerate(cases)))
     loaded = []
     for chunk in core.chunks(rs, 1500):
-        out = core.run_impl(impl, 'harness.drivers.c06', dict(paths=[r['outfile'] for r in chunk]), timeout=900)
+        out = core.run_impl(impl, 'harness.drivers.c06', dict(paths=[r['outfile'] for r in chunk], stale=STALE), timeout=900)
         loaded += out['files']
     shutil.rmtree(sub_base, ignore_errors=True)
     return rs, loaded, orc
@@ -549,9 +588,10 @@ def run(tier, seed):
                             exdefs[key], m, KCODE[c['kind']], OUTCODE[key[2]], regl, coq_hits(o['got']), o['dumps']))
                     else:
                         cprof = c['mode'] in ('b', 'plain', 'pm')
-                        rowtxt.append('(kern_case_ok 100 FULL %s (%d)%%Z %d %d (%d)%%Z %s %s %s %s %s (%d)%%Z %d)' % (
-                            exdefs[key], m, KCODE[c['kind']], OUTCODE[key[2]], tickpos, regl, core.coq_bool(c['mode'] in ('plain', 'pm')),
-                            core.coq_bool(cprof), coq_hits({} if cprof else o['got']), coq_calls(o['got'] if cprof else {}),
+                        decl = '[' + '; '.join(str(x) for x in prog['deco']) + ']%Z'
+                        rowtxt.append('(kern_case_ok 100 FULL %s (%d)%%Z %d %d (%d)%%Z %s %s %s %s %s %s %s (%d)%%Z %d)' % (
+                            exdefs[key], m, KCODE[c['kind']], OUTCODE[key[2]], tickpos, regl, decl, core.coq_bool(c['mode'] in ('plain', 'pm')),
+                            core.coq_bool(cprof), core.coq_bool(c['mode'] == 'b'), coq_hits({} if cprof else o['got']), coq_calls(o['got'] if cprof else {}),
                             rc, o['dumps']))
                 body += 'Definition rows : list (bool * bool * bool) := [\n' + ';\n'.join(rowtxt) + '].\n'
                 body += ('Eval vm_compute in (false_indices (map fst3 rows)).\nEval vm_compute in (false_indices (map snd3 rows)).\n'
